@@ -62,6 +62,7 @@ class Ctx:
 
     # ---------------------------------------------------------------- obligations
     def ob(self, clause, key, kind, desc):
+        clause = getattr(self, "alias", {}).get(clause, clause)
         o = Obligation(clause, "%s/%s" % (clause, key), kind, desc)
         self.obligations.append(o)
         return o
